@@ -146,7 +146,7 @@ def fsym_concrete_runs(module_text, init, nruns):
                 c = st.state.f[n]
                 if c.is_array:
                     v = c.val
-                    snap[n] = "unassociated" if v is None else ("FREED" if not v.live else list(v.data))
+                    snap[n] = "unassociated" if v is None or v is fsym.UNDEF else ("FREED" if not v.live else list(v.data))
                 elif typ in ("int", "real"):
                     snap[n] = c.val
         runs.append(snap)
